@@ -1,8 +1,99 @@
 (* C10 — Hashes read through tiles are authenticated against the tree head.
-   Property theorems only; each is closed by [exact] of a lemma proved elsewhere. *)
+   Property theorems only; each is closed by [exact] of a lemma proved elsewhere.
+   Model: Tlog/Tile.v, Tlog/TileReader.v (tile.go); spec: Tlog/TileSpec.v.
+   NodeAt nh R N l o x: a Merkle path (siblings combined with nh) leads from the complete
+   aligned subtree (l, o) with hash x to the root R of a tree of size N (TileSpec.node_in);
+   tile_ok nh R N t d: every 32-byte entry of tile data d is NodeAt at its coordinate. *)
 From Verif.Base Require Import Bytes.
-From Verif.Tlog Require Import Index Tree Tile TileReader TileProofs.
+From Verif.Tlog Require Import Index Tree Spec6962 Sha Tile TileReader TileReaderOld TileSpec.
+From Verif.Tlog Require Import TileProofsSound TileProofsPath6962 TileProofsTrue TileProofsOld.
 
-Theorem C10_tile_eqb_eq : forall a b, tile_eqb a b = true <-> a = b.
-Proof. exact tile_eqb_eq. Qed.
-Print Assumptions C10_tile_eqb_eq.
+(* Every hash returned and EVERY tile handed to SaveTiles is authenticated (for every hash function). *)
+Theorem C10_read_hashes_sound :
+  forall (nh : hash -> hash -> hash) N R h ix rt hs ts ds,
+    0 <= N <= 2 ^ 62 ->
+    tile_read_hashes nh (N, R) h ix rt = (TOk hs, Some (ts, ds)) ->
+    Forall2 (fun i x => exists l o, split_stored_hash_index i = Ok (l, o) /\ NodeAt nh R N l o x) ix hs /\
+    Forall2 (tile_ok nh R N) ts ds.
+Proof. exact read_hashes_sound. Qed.
+Print Assumptions C10_read_hashes_sound.
+
+(* Whatever the result, tiles reach SaveTiles only after authentication. *)
+Theorem C10_saved_only_authenticated :
+  forall (nh : hash -> hash -> hash) N R h ix rt r ts ds,
+    0 <= N <= 2 ^ 62 ->
+    tile_read_hashes nh (N, R) h ix rt = (r, Some (ts, ds)) ->
+    Forall2 (tile_ok nh R N) ts ds.
+Proof. exact read_hashes_saved_only_authenticated. Qed.
+Print Assumptions C10_saved_only_authenticated.
+
+(* non-vacuity of the two theorems above and the historical defect (section 7, F1), with the real
+   SHA-256: for the 7-record log below and h = 2, index 0, honest tiles give (TOk _, Some _);
+   with one flipped bit in tile/2/0/000 the code before the fix accepted, saved and returned the
+   wrong hash, the code as it is now answers TEInconsistent and saves nothing. *)
+Theorem C10_unfixed_accepts_flipped_tile_sha256 :
+  fst (tile_read_hashes node_hash_sha (7, root7) 2 [0] (serve false)) = TOk [leaf7 0] /\
+  fst (tile_read_hashes_old node_hash_sha (7, root7) 2 [0] (serve false)) = TOk [leaf7 0] /\
+  tile_read_hashes_old node_hash_sha (7, root7) 2 [0] (serve true)
+    = (TOk [flip_first (leaf7 0)],
+       Some ([t_l1; t_l0b; t_l0a], [h03; leaf7 4 ++ leaf7 5 ++ leaf7 6; flip_first true_l0a])) /\
+  flip_first (leaf7 0) <> leaf7 0 /\
+  tile_read_hashes node_hash_sha (7, root7) 2 [0] (serve true) = (TErr TEInconsistent, None).
+Proof. exact unfixed_accepts_flipped_tile_sha256. Qed.
+Print Assumptions C10_unfixed_accepts_flipped_tile_sha256.
+
+(* The soundness statement is false of the code before the fix (loop start len(stx)). *)
+Theorem C10_read_hashes_sound_unfixed_refuted :
+  ~ (forall (nh : hash -> hash -> hash) N R h ix rt hs ts ds,
+       0 <= N <= 2 ^ 62 ->
+       tile_read_hashes_old nh (N, R) h ix rt = (TOk hs, Some (ts, ds)) ->
+       Forall2 (fun i x => exists l o, split_stored_hash_index i = Ok (l, o) /\ NodeAt nh R N l o x) ix hs /\
+       Forall2 (tile_ok nh R N) ts ds).
+Proof. exact read_hashes_sound_unfixed_refuted. Qed.
+Print Assumptions C10_read_hashes_sound_unfixed_refuted.
+
+(* What NodeAt means: a sibling path exists (the generalisation of runRecordProof) ... *)
+Theorem C10_NodeAt_iff_path :
+  forall (nh : hash -> hash -> hash) R N l o x,
+    0 <= l -> 0 <= o -> N <= 2 ^ 62 ->
+    (NodeAt nh R N l o x <-> exists p, run_subtree_proof nh p 0 N l o x = Ok R).
+Proof. exact NodeAt_iff_path. Qed.
+Print Assumptions C10_NodeAt_iff_path.
+
+(* ... which at level 0 is a RecordProof accepted by CheckRecord ... *)
+Theorem C10_nodeat_record_path :
+  forall (nh : hash -> hash -> hash) R N id x,
+    0 <= id < N -> N <= 2 ^ 62 -> NodeAt nh R N 0 id x ->
+    exists p, check_record nh p N R id x = Ok tt.
+Proof. exact nodeat_record_path. Qed.
+Print Assumptions C10_nodeat_record_path.
+
+(* ... and against the true head of a log with leaf hashes L it pins the hash down, or a collision is explicit. *)
+Theorem C10_nodeat_true_or_collision :
+  forall (nh : hash -> hash -> hash) (L : list hash) R N l o x,
+    R = mth nh L -> zlen L = N -> NodeAt nh R N l o x ->
+    x = mth nh (slice L (o * 2 ^ l) (2 ^ l)) \/
+    (exists a b c d : hash, (a, b) <> (c, d) /\ nh a b = nh c d).
+Proof. exact nodeat_true_or_collision. Qed.
+Print Assumptions C10_nodeat_true_or_collision.
+
+Theorem C10_saved_tiles_are_true_tiles :
+  forall (nh : hash -> hash -> hash) (L : list hash) N h ix rt r ts ds,
+    zlen L = N -> N <= 2 ^ 62 ->
+    tile_read_hashes nh (N, mth nh L) h ix rt = (r, Some (ts, ds)) ->
+    Forall2 (fun t d => len d = tW t * 32 /\
+                        forall i, 0 <= i < tW t ->
+                          entry d i = mth nh (slice L ((tN t * 2 ^ tH t + i) * 2 ^ (tH t * tL t)) (2 ^ (tH t * tL t))) \/
+                          (exists a b c d : hash, (a, b) <> (c, d) /\ nh a b = nh c d)) ts ds.
+Proof. exact saved_tiles_are_true_tiles. Qed.
+Print Assumptions C10_saved_tiles_are_true_tiles.
+
+Theorem C10_returned_hashes_are_true :
+  forall (nh : hash -> hash -> hash) (L : list hash) N h ix rt hs sv,
+    zlen L = N -> N <= 2 ^ 62 ->
+    tile_read_hashes nh (N, mth nh L) h ix rt = (TOk hs, Some sv) ->
+    Forall2 (fun i x => exists l o, split_stored_hash_index i = Ok (l, o) /\
+                                    (x = mth nh (slice L (o * 2 ^ l) (2 ^ l)) \/
+                                     (exists a b c d : hash, (a, b) <> (c, d) /\ nh a b = nh c d))) ix hs.
+Proof. exact returned_hashes_are_true. Qed.
+Print Assumptions C10_returned_hashes_are_true.
